@@ -199,6 +199,8 @@ def run(P, R, tier):
     rangeorder_rule(P, R)
     wholeclear_rule(P, R)
     modifydesc_rule(P, R)
+    modifynew_rule(P, R)
+    rawrange_rule(P, R)
 
 
 def writes_store(s):
@@ -977,3 +979,62 @@ def modifydesc_rule(P, R):
                         "description of the entry" % inst, file=g["file"], line=sets[-1][1], function=g["q"])
     if n < 10:
         R.anchor_missing(RULE, "only %d instantiations of Rxn_read_modify found" % n)
+
+
+def modifynew_rule(P, R):
+    """"The component list reported to the caller contains every element present in any defined reactant" - also after a *_MODIFY block that
+    adds a component.  The derived element lists (eltList, totals) are recomputed by the tidy_* functions, which walk only the numbers in
+    the Rxn_new_<kind> sets.  Rxn_read_modify<kind> receives that set as its second parameter and must insert the number of the entry it
+    has just changed, after read_raw, on the path where the entry exists - otherwise the entry keeps the lists of its former content."""
+    RULE = "C14.modifynew"
+    R.rule(RULE, "Rxn_read_modify<kind> registers the modified entry in the Rxn_new_<kind> set it was given", minimum=10)
+    n = 0
+    for k, g in sorted(P.functions.items(), key=lambda kv: kv[1]["q"]):
+        if not g.get("body") or not g["q"].startswith("Utilities::Rxn_read_modify<"):
+            continue
+        n += 1
+        inst = g["q"].split("::")[-1]
+        setp = g["pnames"][1] if len(g.get("pnames", [])) > 1 else None
+        reads = [c[1] for c in T.calls(g["body"]) if T.callee_name(c) == "read_raw"]
+        ins = [c for c in T.calls(g["body"]) if T.callee_name(c) == "insert" and T.call_obj(c) is not None and T.is_node(T.strip_casts(T.call_obj(c)))
+               and T.strip_casts(T.call_obj(c))[0] == "Ref" and T.strip_casts(T.call_obj(c))[3] == setp
+               and any(T.callee_name(y) == "Get_n_user" for a in c[4] for y in T.calls(a))]
+        if setp is None or not reads:
+            R.anchor_missing(RULE, "%s: set parameter / read_raw not found" % inst)
+            continue
+        if any(c[1] > max(reads) for c in ins):
+            R.ok(RULE, inst, "%s.insert(entity number) after read_raw" % setp)
+        else:
+            R.violation(RULE, inst, "%s does not insert the modified entry into the set `%s` (Rxn_new_<kind>): tidy_* skips the entry, its element list and the component list "
+                        "keep the former content" % (inst, setp), file=g["file"], line=max(reads), function=g["q"])
+    if n < 10:
+        R.anchor_missing(RULE, "only %d instantiations of Rxn_read_modify found" % n)
+
+
+def rawrange_rule(P, R):
+    """"definitions and number ranges create entries": Rxn_read_raw<kind> expands `X_RAW n-m` into the entries n..m when it is read.  Once the
+    copies exist the range is spent: the entry stored under n must not keep the range end m, because later expansion steps trust it -
+    tidy_model's "Duplicate kinetics" walks the WHOLE kinetics store whenever any KINETICS is defined and copied entry n over n+1..m
+    again, reverting a later KINETICS_MODIFY of entry n+1 and resurrecting a deleted entry m.  After the Rxn_copies call the function must
+    reset the range end of the stored entry (Set_n_user_end with the entry's own number)."""
+    RULE = "C14.rawrange"
+    R.rule(RULE, "Rxn_read_raw<kind>: after the range of a RAW block has been expanded, the stored first entry gets its range end reset", minimum=11)
+    n = 0
+    for k, g in sorted(P.functions.items(), key=lambda kv: kv[1]["q"]):
+        if not g.get("body") or not g["q"].startswith("Utilities::Rxn_read_raw<"):
+            continue
+        n += 1
+        inst = g["q"].split("::")[-1]
+        cps = [c[1] for c in T.calls(g["body"]) if T.callee_name(c) == "Rxn_copies"]
+        if not cps:
+            R.anchor_missing(RULE, "%s: no Rxn_copies call" % inst)
+            continue
+        resets = [c for c in T.calls(g["body"]) if T.callee_name(c) in ("Set_n_user_end", "Set_n_user_both") and c[1] > min(cps)
+                  and any(T.callee_name(y) == "Get_n_user" for a in c[4] for y in T.calls(a))]
+        if resets:
+            R.ok(RULE, inst, "range end reset at line %d" % resets[0][1])
+        else:
+            R.violation(RULE, inst, "%s expands the range of a RAW block and leaves the range end on the stored first entry: a later whole-store expansion (tidy_model, "
+                        "Duplicate kinetics) copies it over the following entries again" % inst, file=g["file"], line=min(cps), function=g["q"])
+    if n < 11:
+        R.anchor_missing(RULE, "only %d instantiations of Rxn_read_raw found" % n)
